@@ -564,22 +564,58 @@ def r2(ctx, r):
     pops = stack_ops(end, ("pop_back",))
     prod = [e for e in end.stmts() if e.node.get("k") == "mcall" and last(e.node.get("callee", "")) == "produced"]
     emp = [b for b in end.blocks.values() if b.cond is not None and show(strip_casts(b.cond)) == "_elementStack.empty()"]
-    neq = [b for b in end.blocks.values() if b.cond is not None and common.cmp_parts(b.cond) and "_elementStack.back()" in show(b.cond)]
+    nm = [v["n"] for e in end.stmts() if e.node.get("k") == "decl" for v in e.node["vars"] if v.get("init") is not None and "readName()" in show(v["init"])]
     r.instance()
-    if not r.expect(len(pops) == 1 and len(prod) == 1 and len(emp) == 1 and len(neq) == 1, end, None, "end tag shape", "readEndTag: expected one pop_back, one produced(), one empty() test and one comparison with back(); found %d/%d/%d/%d"
-                    % (len(pops), len(prod), len(emp), len(neq)), okdesc="readEndTag: one pop, one produced, both tests present"):
+    if not r.expect(len(pops) == 1 and len(prod) == 1 and len(emp) == 1, end, None, "end tag shape", "readEndTag: expected one pop_back, one produced() and one empty() test; found %d/%d/%d"
+                    % (len(pops), len(prod), len(emp)), okdesc="readEndTag: one pop, one produced, empty() test present"):
         return
+    if len(nm) != 1:
+        raise AnalysisBroken("readEndTag: the name read by readName() is not held in exactly one local (%s)" % nm)
     pop, prd = pops[0], prod[0]
     r.instance()
     r.expect(dominated_by_edge(end, pop, emp[0], 1, eh=False), end, pop, "pop on empty stack", "readEndTag pops (and accepts the end tag) on a path where `_elementStack.empty()` was not tested false: an end tag without a start tag is accepted / pop_back on an empty vector",
              okdesc="pop behind !empty()")
-    cp = common.cmp_parts(neq[0].cond)
-    names_cmp = {show(strip_views(cp[1])), show(strip_views(cp[2]))}
-    nm = [v["n"] for e in end.stmts() if e.node.get("k") == "decl" for v in e.node["vars"] if v.get("init") is not None and "readName()" in show(v["init"])]
-    si = 1 if cp[0] == "!=" else 0
+    # the name just read must be found EQUAL (whole strings) to the innermost open name before the pop
+    verdicts = []
+    for (c, truth) in dominating_facts(end, pop):
+        cs = strip_casts(c)
+        if not any(x.get("k") == "var" and x["n"] == nm[0] for x in walk(cs)):
+            continue
+        cp = common.cmp_parts(cs)
+        if cp:
+            a, b = strip_views(cp[1]), strip_views(cp[2])
+            sides = [a, b]
+            named = [x for x in sides if x.get("k") == "var" and x["n"] == nm[0]]
+            other = [x for x in sides if x not in named]
+            eqedge = (cp[0] == "==" and truth) or (cp[0] == "!=" and not truth)
+            if named and other and other[0].get("k") in ("mcall", "opcall", "idx", "var", "member") and not const_value(other[0]) == 0 and eqedge:
+                verdicts.append(("equal", show(cs)))
+                continue
+            # X.compare(pos, count, name) ==/!= 0
+            cm = [x for x in sides if x.get("k") == "mcall" and last(x.get("callee", "")) == "compare"]
+            zero = [x for x in sides if const_value(x) == 0]
+            if cm and zero and eqedge:
+                args = [x for x in cm[0].get("args", []) if not x.get("def")]
+                if len(args) == 1:
+                    verdicts.append(("equal", show(cs)))            # whole-string compare
+                elif len(args) >= 3 and any(y.get("k") == "var" and y["n"] == nm[0] for y in walk(args[1])):
+                    verdicts.append(("prefix", show(cs)))           # count taken from the name just read: only a prefix of the open name is compared
+                else:
+                    verdicts.append(("unknown", show(cs)))
+                continue
+            if eqedge or cp[0] in ("==", "!="):
+                verdicts.append(("unknown", show(cs)))
     r.instance()
-    r.expect(nm and nm[0] in names_cmp and dominated_by_edge(end, pop, neq[0], si, eh=False), end, pop, "pop without name match", "readEndTag pops on a path where the name just read was not found equal to _elementStack.back(): "
-             "mis-nested documents such as <a><b></a></b> are accepted", okdesc="pop behind name == back()")
+    if any(v == "equal" for v, _ in verdicts):
+        r.ok("pop behind `%s`" % [t for v, t in verdicts if v == "equal"][0][:60])
+    elif any(v == "prefix" for v, _ in verdicts):
+        t = [t for v, t in verdicts if v == "prefix"][0]
+        r.fail(end, pop, "end tag name compared as a prefix", "readEndTag accepts the end tag after `%s`: the number of characters compared is the length of the name just read, so only a PREFIX of the innermost open "
+               "element's name is compared — `<ab>…</a>` is accepted as balanced" % t[:90])
+    elif verdicts:
+        raise AnalysisBroken("readEndTag: the comparison between the end-tag name and the open element has a shape the rule cannot classify: %s" % verdicts[0][1][:100])
+    else:
+        r.fail(end, pop, "pop without name match", "readEndTag pops on a path where the name just read was not compared with the innermost open element: mis-nested documents such as <a><b></a></b> are accepted")
     r.instance()
     r.expect(elem_dominates(end, pop, prd, eh=False) and search(end, pop, lambda x: x is pop, eh=False) is None, end, prd, "end tag produced without pop", "readEndTag reports an EndElement on a path that did not pop exactly one open element",
              okdesc="EndElement produced only after exactly one pop")
@@ -601,7 +637,9 @@ def r2(ctx, r):
         pushed_name = show(push.node["args"][0]) if push.node.get("args") else ""
         snm = [v["n"] for e in start.stmts() if e.node.get("k") == "decl" for v in e.node["vars"] if v.get("init") is not None and "readName()" in show(v["init"])]
         r.instance()
-        r.expect(snm and snm[0] in pushed_name, start, push, "pushed name", "the name pushed on the stack is not the tag name just read", okdesc="pushed name is the tag name")
+        stored_elsewhere = bool(snm) and any(x.kind == "stmt" and x.node.get("k") in ("mcall", "opcall") and (last(x.node.get("callee", "")) in ("append", "insert", "push_back", "emplace_back", "operator+=", "assign") or x.node.get("op") == "+=")
+                                              and snm[0] in show(x.node) and x is not push for x in push.block.elems)
+        r.expect(snm and (snm[0] in pushed_name or stored_elsewhere), start, push, "pushed name", "neither the value pushed on the open-element stack nor anything stored with it is the tag name just read", okdesc="the tag name just read is recorded with the push")
         for p in prods:
             r.instance()
             on_empty = dominated_by_edge(start, p, ebb, 0, eh=False)
@@ -621,20 +659,36 @@ def r2(ctx, r):
             cpi = common.cmp_parts(i)
             ok = bool(cpi) and cpi[0] == "==" and const_value(cpi[2]) == ord('/') and "peek()" in show(cpi[1])
         r.expect(ok, start, None, "empty flag", "`empty` is not exactly 'the character after the attributes is /'", okdesc="empty ⇔ '/' seen")
-    # depth paired with the stack
-    incs = [(f, e) for f in funcs for e in f.stmts() if e.node.get("k") == "un" and field_of(strip_casts(e.node["v"])) == DEPTH and "++" in e.node["op"]]
-    decs = [(f, e) for f in funcs for e in f.stmts() if e.node.get("k") == "un" and field_of(strip_casts(e.node["v"])) == DEPTH and "--" in e.node["op"]]
+    # depth paired with the stack: on every path to produced() the net change of _depth is +1 exactly when the element was pushed
+    # (start tag) and -1 exactly with the pop (end tag); nothing else writes _depth
+    dw = [(f, e) for f in funcs for e in f.stmts() if (e.node.get("k") == "un" and field_of(strip_casts(e.node["v"])) == DEPTH and ("++" in e.node["op"] or "--" in e.node["op"])) or
+          (e.node.get("k") == "bin" and is_assign(e.node) and field_of(strip_casts(e.node["lhs"])) == DEPTH)]
     r.instance()
-    r.expect(len(incs) == 1 and incs[0][0] is start and {f.name for f, _ in decs} == {start.name, end.name} and len(decs) == 2, start, None, "depth accounting", "_depth is not incremented once per start tag and decremented once per end tag / empty element",
-             okdesc="_depth: ++ in start tag, -- in end tag and empty element")
-    if len(decs) == 2 and pushes:
-        dstart = [e for f, e in decs if f is start][0]
-        dend = [e for f, e in decs if f is end][0]
-        r.instance()
-        r.expect(elem_dominates(end, pop, dend, eh=False) or elem_dominates(end, dend, pop, eh=False), end, dend, "depth/pop pairing", "--_depth in readEndTag is not paired with the pop", okdesc="--_depth paired with pop")
-        r.instance()
-        r.expect(search(start, dstart, lambda x: x is pushes[0], eh=False) is None and search(start, pushes[0], lambda x: x is dstart, eh=False) is None, start, dstart, "depth/push pairing",
-                 "--_depth in readStartOrEmptyTag is reachable together with the push", okdesc="--_depth only on the empty-element path")
+    bad = [(f, e) for f, e in dw if f not in (start, end) and f.kind != "ctor"]
+    r.expect(not bad, bad[0][0] if bad else start, bad[0][1] if bad else None, "depth written elsewhere", "_depth is modified outside the start/end tag readers", okdesc="_depth written only by the tag readers (%d sites)" % len(dw))
+    from ..predabs import Vocab, PredAbs, A, Not, And, Or
+    for (f, stack_elems, want_push, label) in ((start, pushes, True, "start tag"), (end, pops, False, "end tag")):
+        vocab = Vocab(["chg", "twice", "stk"])
+
+        def effects(e, f=f, stack_elems=stack_elems):
+            if e.kind != "stmt":
+                return None
+            n = e.node
+            if n.get("k") == "un" and field_of(strip_casts(n["v"])) == DEPTH and ("++" in n["op"] or "--" in n["op"]):
+                up = "++" in n["op"]
+                # net change relative to entry: start tag counts +1 as 'chg', a following -1 undoes it; end tag symmetric
+                if (up and f is start) or ((not up) and f is end):
+                    return [("assign", "twice", Or(A("twice"), A("chg"))), ("set", "chg", True)]
+                return [("assign", "twice", Or(A("twice"), Not(A("chg")))), ("set", "chg", False)]
+            if e in stack_elems:
+                return [("set", "stk", True)]
+            return None
+        pa = PredAbs(f, vocab, lambda n: None, effects, init=And(Not(A("chg")), Not(A("twice")), Not(A("stk"))), eh=False)
+        ps_ = [e for e in f.stmts() if e.node.get("k") == "mcall" and last(e.node.get("callee", "")) == "produced"]
+        for e in ps_:
+            r.instance()
+            r.expect(pa.entails(e, And(Not(A("twice")), Or(And(A("chg"), A("stk")), And(Not(A("chg")), Not(A("stk")))))), f, e, "depth/stack pairing: %s" % label,
+                     "a %s token is produced on a path where the net change of _depth does not match the push/pop of the open-element stack (%s)" % (label, ", ".join(pa.describe(e))), okdesc="%s: depth change ⇔ stack change" % label)
     # Eof only with an empty stack
     seteof = [e for e in eof.stmts() if assign_parts(e.node) and "_emittedEof" in show(assign_parts(e.node)[0])]
     embs = [b for b in eof.blocks.values() if b.cond is not None and "_elementStack.empty()" in show(b.cond)]
@@ -680,6 +734,11 @@ def r3(ctx, r):
         strict = (op == ">" and fl is not None and fl[0] >= 1) or (op == ">=" and fl is not None and fl[0] >= 0)
         ok = strict and "maxDepth" in show(rr) and dominated_by_edge(start, inc[0], db[0], 1, eh=False)
     r.expect(ok, start, inc[0] if inc else None, "depth limit", "++_depth is reachable without passing the false edge of `_depth + 1 > maxDepth`", okdesc="maxDepth tested before ++_depth")
+    prods_ = [e for e in start.stmts() if e.node.get("k") == "mcall" and last(e.node.get("callee", "")) == "produced"]
+    for e in prods_:
+        r.instance()
+        r.expect(len(db) == 1 and dominated_by_edge(start, e, db[0], 1, eh=False), start, e, "element reported beyond the depth limit", "readStartOrEmptyTag reports an element (depth _depth + 1) on a path that did not pass the "
+                 "maxDepth test: an element one level beyond the limit is accepted (e.g. a self-closing leaf)", okdesc="every start/empty element token behind the maxDepth test")
     # name length: every non-empty return of readName is behind the test
     nb = [b for b in name.blocks.values() if b.cond is not None and common.cmp_parts(b.cond) and "maxNameLength" in show(b.cond)]
     rets = [e for e in common.returns(name) if "substr" in show(e.node)]
@@ -1021,7 +1080,19 @@ def r6(ctx, r):
         r.expect(len(dec) == 1, dom, None, "DOM decoding: %s" % k, "the %s case does not decode entities exactly once" % k, okdesc="%s: entities decoded once" % k)
 
 
+def anchors(ctx, r):
+    tab = [(xp(ctx, "readStartOrEmptyTag"), ["empty", "name"]), (xp(ctx, "readEndTag"), ["name"]), (xp(ctx, "readAttributes"), ["attrs"]), (xp(ctx, "appendCharRef"), ["code", "c", "v"]),
+           (xp(ctx, "encodeUtf8"), ["out"]), (xp(ctx, "decodeEntities"), ["ent"]), (ctx.fb().func("iora::parsers::xml::DomBuilder::build", file_suffix=XF), ["stack"])]
+    for f, names in tab:
+        common.require_names(f, names)
+        r.instance()
+        r.ok("%s: %s" % (last(f.name), ", ".join(names)))
+
+
 def run(ctx, ck):
+    r0 = ck.run_rule("C14-R0", "the local names the rules are anchored on exist (a rename makes the analysis refuse — exit 2 — instead of raising a false alarm)", "anchor table", lambda r: anchors(ctx, r))
+    if r0.broken:
+        return
     ck.run_rule("C14-R1", "cursor and every local index stay inside their buffers; slices start at cursor snapshots; offsets are the cursor", "A7 interprocedural cursor-window abstract interpretation + local windows", lambda r: r1(ctx, r))
     ck.run_rule("C14-R2", "element stack pushed/popped only behind the balance tests; Eof only with an empty stack; errors sticky", "A2 dominance / who-may-write", lambda r: r2(ctx, r))
     ck.run_rule("C14-R3", "every configured limit is tested on every path that grows the bounded quantity", "A2 dominance + loop re-entry search", lambda r: r3(ctx, r))
